@@ -119,6 +119,11 @@ func (c12) Exec(seed int64, i int, tier string) Record {
 	if i%50 == 31 {
 		return c12AccValuedCase(r) // class accessor-valued (b12_helpers.go)
 	}
+	if i%20 == 13 {
+		// classes history-fault-probe / call-parity-probe (b16_probes.go): accessor mode after a Parse that failed at a chosen
+		// point; a function faulty from its K-th call sees the same calls in both modes
+		return b16C12(r, i/20)
+	}
 	doc, p, inFilter := c12Gen(r, 65, 35, false, 8, 75)
 	text := Render(p, r)
 	jn := r.Chance(25)
